@@ -412,6 +412,7 @@ func tail(s string, n int) string {
 func runOvl(c *hx.Ctx, cfg ovlCfg, texts, titles []string) bool {
 	kase := ovlCase{Kind: "ovl", Cfg: cfg, Chunks: hexAll(texts), Titles: hexAll(titles)}
 	var res []ovlOut
+	var outs []*rag.ChunkWithOverlap
 	p, to := withDeadline(func() {
 		chunks := make([]*rag.Chunk, len(texts))
 		for i, t := range texts {
@@ -422,6 +423,7 @@ func runOvl(c *hx.Ctx, cfg ovlCfg, texts, titles []string) bool {
 		for _, o := range out {
 			res = append(res, ovlOut{o.OverlapPrefix, o.HasOverlapPrefix, o.Text})
 		}
+		outs = out
 	})
 	if !c.Check("C13/terminates", !to, kase, func() string { return "ApplyOverlapToChunks did not return" }) {
 		return false
@@ -434,6 +436,19 @@ func runOvl(c *hx.Ctx, cfg ovlCfg, texts, titles []string) bool {
 	}
 	c.Op(op, dumpOvl(res))
 	overlapOracles(c, "ApplyOverlapToChunks", kase, cfg.Strategy, cfg.Size, cfg.Max, cfg.Ctx, texts, titles, res)
+	// round 6: what a caller reads back from the returned chunks (GetOriginalText, OverlapSuffix, counters)
+	total := 0
+	for _, t := range texts {
+		total += len(t)
+	}
+	if len(outs) == len(texts) && total <= 20000 { // the buffer-sized texts of large.go would only repeat 0.5 MB op lines
+		var dump string
+		if pp := hx.Safe(func() { dump = originalOracles(c, kase, cfg.Ctx, texts, titles, outs) }); pp != "" {
+			c.Check("C13/panic", false, kase, func() string { return "GetOriginalText panicked: " + pp })
+			dump = "panic"
+		}
+		c.Op("c13.orig"+strings.TrimPrefix(op, "c13.ovl"), dump)
+	}
 	c.Count(fmt.Sprintf("ovl-strategy=%d", cfg.Strategy))
 	return true
 }
@@ -666,7 +681,7 @@ func genOvlCfg(r *hx.Rng) ovlCfg {
 func init() { hx.Register("C13", Run, Replay) }
 
 func Run(c *hx.Ctx) {
-	c.Rep.Rule = "split: texts of 11 kinds (ASCII prose, spaced prose with a space every 50 bytes, CJK without spaces, emoji/ZWJ, combining sequences, long tokens, whitespace only, mixed, Latin-1 mixed, invalid UTF-8, whitespace-edged) x 5 units x limits 1..4000 x dyadic tokens-per-char, length 0..4x the limit; bound: characters/tokens, limit >= 200, generated with a space every 50 bytes and sentence ends placed at the limit; sweep: for hard maxima in characters and tokens (>= 1 token per byte, thorough also < 1), prose with a space every 50 bytes (4 backgrounds: short words, 30-45 byte words, competing punctuation, multi-byte words) in which each kind of break opportunity (sentence end + space, sentence end + closing quote/bracket + space, sentence end + line/paragraph break, clause punctuation, bare newline, paragraph break, plain space, punctuation without whitespace) starts at EVERY byte offset limit-60..limit+3 of the text (first piece) and at every absolute offset that can be limit-60..limit+3 of the remainder after one (thorough: two) pieces, one in eight also through ChunkDocumentWithConfig; doc: 1-3 paragraphs through ChunkDocumentWithConfig; ovl: 1-5 chunk texts x 4 strategies x sizes through ApplyOverlapToChunks; cwo: paragraph documents through ChunkWithOverlapEnabled (character and sentence overlap); non-trivial = more than one piece / at least one overlap applied; deepening round: splitb = SplitToSize with 0-30 caller-supplied boundaries (positions around the byte position of the limit and its multiples, at the edges of the +-25% window, negative, beyond the text; scores of the boundary types and negative ones); fsp = FindSplitPointAt/FindSplitPoint at the maximum or another limit of any unit, with and without boundaries; size = Calculate on every text kind; preset = every preset constructor; docp = ChunkDocumentWithConfig on 1-4 pages (empty pages included, one in six with the default configuration and rag.ChunkDocument); nonspace = the specification function of the conservation theorems on every text kind (invalid UTF-8 included); sent = splitIntoSentences on sentence material (abbreviations, initials, capitals and lower case around the punctuation, characters whose last byte is 0x85/0xA0 before a capital, non-ASCII case) and on every text kind; chunk/cwe = Chunker.Chunk and ChunkWithOverlapEnabled from the paragraphs (blank paragraphs, orphans below MinChunkSize, oversized paragraphs of sentence material), each call repeated on the same chunker; strengthening round 4 (large): one physical line / token / sentence / paragraph of 6 flavours (ordinary sentences, unpunctuated words, one long token, CJK, Latin-1 prose, sentence material) with a length just below, at, just above and up to 2x beyond 4096 and 65536 bytes (thorough: 262144), as the only, first, middle or last paragraph of a chunk or as one line of a multi-line paragraph, enumerated x overlap strategy (character, sentence, paragraph) through ApplyOverlapToChunks; the same texts x 5 units through SplitToSize / ChunkDocumentWithConfig, through splitIntoSentences and through Chunk / ChunkWithOverlapEnabled (paragraph packed by sentences and kept whole); strengthening round 5 (titles): 3-6 chunks that are mostly shorter than the overlap (a heading word, a phrase, one or two sentences, one-line paragraphs) whose section titles echo the text around them (a tail of the previous chunk's own content from one of its last word starts or all of it, the head of the chunk's own content, the previous chunk being nothing but the coming title = running line / TOC entry; bare, numbered, suffixed, bracketed; titles containing brackets and blank lines) x every overlap strategy with section context mostly on through ApplyOverlapToChunks; the same as documents of 3-6 pages with one heading each (levels 1-3, optional preamble page) through Chunk / ChunkWithOverlapEnabled, one quarter with the Chunker's default configuration (non-trivial = overlap enabled with section context)"
+	c.Rep.Rule = "split: texts of 11 kinds (ASCII prose, spaced prose with a space every 50 bytes, CJK without spaces, emoji/ZWJ, combining sequences, long tokens, whitespace only, mixed, Latin-1 mixed, invalid UTF-8, whitespace-edged) x 5 units x limits 1..4000 x dyadic tokens-per-char, length 0..4x the limit; bound: characters/tokens, limit >= 200, generated with a space every 50 bytes and sentence ends placed at the limit; sweep: for hard maxima in characters and tokens (>= 1 token per byte, thorough also < 1), prose with a space every 50 bytes (4 backgrounds: short words, 30-45 byte words, competing punctuation, multi-byte words) in which each kind of break opportunity (sentence end + space, sentence end + closing quote/bracket + space, sentence end + line/paragraph break, clause punctuation, bare newline, paragraph break, plain space, punctuation without whitespace) starts at EVERY byte offset limit-60..limit+3 of the text (first piece) and at every absolute offset that can be limit-60..limit+3 of the remainder after one (thorough: two) pieces, one in eight also through ChunkDocumentWithConfig; doc: 1-3 paragraphs through ChunkDocumentWithConfig; ovl: 1-5 chunk texts x 4 strategies x sizes through ApplyOverlapToChunks; cwo: paragraph documents through ChunkWithOverlapEnabled (character and sentence overlap); non-trivial = more than one piece / at least one overlap applied; deepening round: splitb = SplitToSize with 0-30 caller-supplied boundaries (positions around the byte position of the limit and its multiples, at the edges of the +-25% window, negative, beyond the text; scores of the boundary types and negative ones); fsp = FindSplitPointAt/FindSplitPoint at the maximum or another limit of any unit, with and without boundaries; size = Calculate on every text kind; preset = every preset constructor; docp = ChunkDocumentWithConfig on 1-4 pages (empty pages included, one in six with the default configuration and rag.ChunkDocument); nonspace = the specification function of the conservation theorems on every text kind (invalid UTF-8 included); sent = splitIntoSentences on sentence material (abbreviations, initials, capitals and lower case around the punctuation, characters whose last byte is 0x85/0xA0 before a capital, non-ASCII case) and on every text kind; chunk/cwe = Chunker.Chunk and ChunkWithOverlapEnabled from the paragraphs (blank paragraphs, orphans below MinChunkSize, oversized paragraphs of sentence material), each call repeated on the same chunker; strengthening round 4 (large): one physical line / token / sentence / paragraph of 6 flavours (ordinary sentences, unpunctuated words, one long token, CJK, Latin-1 prose, sentence material) with a length just below, at, just above and up to 2x beyond 4096 and 65536 bytes (thorough: 262144), as the only, first, middle or last paragraph of a chunk or as one line of a multi-line paragraph, enumerated x overlap strategy (character, sentence, paragraph) through ApplyOverlapToChunks; the same texts x 5 units through SplitToSize / ChunkDocumentWithConfig, through splitIntoSentences and through Chunk / ChunkWithOverlapEnabled (paragraph packed by sentences and kept whole); strengthening round 5 (titles): 3-6 chunks that are mostly shorter than the overlap (a heading word, a phrase, one or two sentences, one-line paragraphs) whose section titles echo the text around them (a tail of the previous chunk's own content from one of its last word starts or all of it, the head of the chunk's own content, the previous chunk being nothing but the coming title = running line / TOC entry; bare, numbered, suffixed, bracketed; titles containing brackets and blank lines) x every overlap strategy with section context mostly on through ApplyOverlapToChunks; the same as documents of 3-6 pages with one heading each (levels 1-3, optional preamble page) through Chunk / ChunkWithOverlapEnabled, one quarter with the Chunker's default configuration (non-trivial = overlap enabled with section context); round 6: detect = DetectBoundaries on 0-14 content blocks (paragraphs of sentence material - abbreviations, initials, decimals, capitals of one and two bytes behind the full stop -, prose of every script, invalid UTF-8; headings, lists, tables, figures, captions, unknown elements; paragraphs that introduce a list by one of the four patterns, followed by a list or not); splitd = SplitToSize(blocks joined by blank lines, DetectBoundaries(blocks)) x all units and limits, half of them with character/token limits of 8-250 at which a paragraph is split many times, plus sentence ends followed by 1-2 bytes of white space (ASCII, ideographic space) and a two-byte capital at every limit 5..40; best/look = FindBestBoundary / FindBoundaryWithLookAhead on generated boundaries with windows around them (negative lower bound included); orphan = WouldCreateOrphan / AdjustForOrphans with boundaries around the position, positions and boundaries beyond the text (the code panics; the model says so); orig = GetOriginalText, GetOverlapText, OverlapSuffix/HasOverlapSuffix and the rewritten counters of every chunk of every ApplyOverlapToChunks call above (incl. the echoing titles of round 5, where the title repeats the overlap); gen = GenerateOverlap directly on one chunk text (every text kind, sentence material, invalid UTF-8) x 4 strategies, with the suffix clause read as runes on every input; content = the specification function of the all-bytes overlap theorems (non-whitespace characters of string([]rune(text))) on every text kind; conv = ConvertSize on 15 values x 25 unit pairs; defovl = DefaultOverlapConfig"
 	// hand-picked edge cases first
 	for _, e := range edgeCases() {
 		if !runSplit(c, e.text, e.cfg) {
@@ -779,6 +794,11 @@ func Run(c *hx.Ctx) {
 	if !runTitles(c) {
 		return
 	}
+	// round 6: boundary detection composed with SplitToSize, boundary selection, orphan
+	// adjustment, GenerateOverlap's whole result, conversions (round6.go)
+	if !runRound6(c) {
+		return
+	}
 }
 
 type edge struct {
@@ -850,6 +870,8 @@ func Replay(c *hx.Ctx, k map[string]interface{}) {
 		runDoc(c, list("paras"), getCfg())
 	case "splitb", "fsp", "size":
 		replayApi(c, k, getCfg())
+	case "detect", "splitd", "best", "look", "orphan", "gen":
+		replayRound6(c, k)
 	case "sent":
 		runSent(c, unhex(fmt.Sprint(k["text"])))
 	case "cwh":
